@@ -16,8 +16,8 @@ def run(ctx):
     racelog = os.path.join(ctx.scratch, 'race')
     procs, rounds = (8, '3') if not ctx.thorough else (32, '12')
     ctx.children(br, procs, run='TestC11', timeout=2400, parallel=2, crash_key='C11/crash',
-                 env={'VERIF_C11_ROUNDS': rounds, 'GODEBUG': 'asyncpreemptoff=0', 'GORACE': 'halt_on_error=0 log_path=%s' % racelog})
-    ctx.children(b, procs, run='TestC11', timeout=2400, parallel=2, crash_key='C11/crash', env={'VERIF_C11_ROUNDS': rounds, 'VERIF_C11_ITERS': '60', 'GODEBUG': 'asyncpreemptoff=0'})
+                 env={'VERIF_C11_ROUNDS': rounds, 'VERIF_C11_STALL_S': '60' if not ctx.thorough else '240', 'GODEBUG': 'asyncpreemptoff=0', 'GORACE': 'halt_on_error=0 log_path=%s' % racelog})
+    ctx.children(b, procs, run='TestC11', timeout=2400, parallel=2, crash_key='C11/crash', env={'VERIF_C11_ROUNDS': rounds, 'VERIF_C11_STALL_S': '60' if not ctx.thorough else '240', 'VERIF_C11_ITERS': '60', 'GODEBUG': 'asyncpreemptoff=0'})
     n, sigs = core.count_races(racelog + '.*')
     ctx.stats['race_reports'] = n
     for s in sigs[:6]:
